@@ -27,6 +27,18 @@ impl<K: Ord + Copy, V> BTreeMap<K, V> {
     pub fn keys(&self) -> impl Iterator<Item = &K> { self.items.iter().map(|e| &e.0) }
     pub fn values(&self) -> impl Iterator<Item = &V> { self.items.iter().map(|e| &e.1) }
 }
+pub struct Entry<'a, K, V> { map: &'a mut BTreeMap<K, V>, key: K }
+impl<'a, K: Ord + Copy, V> Entry<'a, K, V> {
+    pub fn or_insert_with<F: FnOnce() -> V>(self, f: F) -> &'a mut V {
+        match self.map.pos(&self.key) {
+            Ok(i) => &mut self.map.items[i].1,
+            Err(i) => { self.map.items.insert(i, (self.key, f())); &mut self.map.items[i].1 }
+        }
+    }
+}
+impl<K: Ord + Copy, V> BTreeMap<K, V> {
+    pub fn entry(&mut self, k: K) -> Entry<'_, K, V> { Entry { map: self, key: k } }
+}
 #[derive(Clone, Debug, Default)]
 pub struct BTreeSet<K> { items: Vec<K> }
 impl<K: Ord + Copy> BTreeSet<K> {
